@@ -604,12 +604,50 @@ def client_kwargs(case, stack, headers=None):
     return kwargs
 
 
+_MONTHS = {m: i + 1 for i, m in enumerate(['Jan', 'Feb', 'Mar', 'Apr', 'May', 'Jun', 'Jul', 'Aug', 'Sep', 'Oct', 'Nov', 'Dec'])}
+
+
+def _cookie_facts_of_line(line):
+    """(name, value, expires as a UTC field tuple or None, max-age, domain, path) read from one Set-Cookie line by hand."""
+    parts = [p.strip() for p in line.split(';')]
+    name, _, value = parts[0].partition('=')
+    if len(value) >= 2 and value[0] == value[-1] == '"':
+        value = value[1:-1]
+    facts = {'expires': None, 'max_age': None, 'domain': None, 'path': None}
+    for p in parts[1:]:
+        k, _, v = p.partition('=')
+        k = k.strip().lower()
+        if k == 'expires':
+            m = re.match(r'^\w{3}, (\d{2})[ -](\w{3})[ -](\d{4}) (\d{2}):(\d{2}):(\d{2}) GMT$', v.strip())
+            if m:
+                facts['expires'] = (int(m.group(3)), _MONTHS[m.group(2)], int(m.group(1)), int(m.group(4)), int(m.group(5)), int(m.group(6)))
+        elif k == 'max-age':
+            facts['max_age'] = int(v)
+        elif k in ('domain', 'path'):
+            facts[k] = v.strip()
+    return name.strip(), value, facts
+
+
+def _cookie_facts_of_client(c):
+    e = c.expires
+    if e is not None:
+        if e.utcoffset() is None:
+            exp = ('naive',) + tuple(e.timetuple()[:6])
+        else:
+            e = e.astimezone(_dt.timezone.utc)
+            exp = (e.year, e.month, e.day, e.hour, e.minute, e.second)
+    else:
+        exp = None
+    return c.value, {'expires': exp, 'max_age': c.max_age, 'domain': c.domain, 'path': c.path}
+
+
 def obs_of_result(result, holder):
     if holder.harness is not None:
         raise HarnessError('client: responder harness raised %r' % (holder.harness,))
     hdrs = [(k.lower(), v) for k, v in result.headers.items()]
     obs = Obs(result.status_code, hdrs, result.content, holder.digests, holder.api_exc)
     obs.cookie_names = sorted(result.cookies)
+    obs.cookie_facts = {n: _cookie_facts_of_client(c) for n, c in result.cookies.items()}
     return obs
 
 
@@ -739,6 +777,18 @@ def compare_with_client(stack, drv, cli, case):
             names = sorted(set(_cookie_name(v) for v in multi['set-cookie']))
             if names != cli.cookie_names:
                 detail = 'cookie names'
+            elif getattr(cli, 'cookie_facts', None) is not None:
+                # result.cookies[name] describes the LAST Set-Cookie line for that name: value, Expires as the same instant
+                # (whatever the time zone of the process running the test client), Max-Age, Domain, Path
+                last = {}
+                for v in multi['set-cookie']:
+                    n, val, facts = _cookie_facts_of_line(v)
+                    last[n] = (val, facts)
+                for n, (val, facts) in last.items():
+                    got_val, got_facts = cli.cookie_facts.get(n, (None, {}))
+                    for k in ('expires', 'max_age', 'domain', 'path'):
+                        if facts[k] is not None and got_facts.get(k) != facts[k]:
+                            detail = 'cookie attribute %s of %r (line says %r, result.cookies says %r)' % (k, n, facts[k], got_facts.get(k))
     if detail is not None:
         raise Violation('client_response_' + detail.split(' ')[0],
                         '%s: %s differ: driver=%r client=%r cookies=%r; request: %s; responder: %r'
